@@ -16,6 +16,12 @@ RULE = (
     "{a,b,c,z,y} (matching, non-matching, duplicate) -- exhaustive; argument order in the source interleaved at random; stream "
     "with: random templates of nested with blocks (depth<=5), assign, output, macro definitions and calls inside and outside the "
     "blocks, names drawn from a small pool so that shadowing is frequent, plus with-nesting beyond context_depth_limit. "
+    "Deepening round: the with stream also generates for loops, if, break, continue and failing nodes (strict and lax mode) inside "
+    "and around with blocks and macro bodies; stream withexit (60 cases, exhaustive grid: break/continue/suppressed error/normal x outer "
+    "binding x with-depth x iteration) is rendered by the model as well; stream partials (729 cases, exhaustive grid): a partial built from "
+    "two of nine fragments (calls the parent's macro, defines a macro, assigns, outputs, with+calls, break, continue, failing node, redefines "
+    "the parent's macro) reached by include / render / render with arguments, at top level / inside with / inside for; the parent then calls "
+    "both macros and prints the variable. "
     "Non-trivial: bind/call -- the call has a surplus or a default fallback or a keyword overriding a positional or a duplicate "
     "keyword; with -- a with argument shadows a name that is also bound outside, or the block assigns a shadowed name."
 )
@@ -32,13 +38,18 @@ ASSUMPTIONS = [
     "a parameter named args / kwargs hides the surplus list / dict (the parameter binding wins); the surplus theorems are about the Bound "
     "structure and about namespaces whose parameters are not called args / kwargs",
     "builtin names (now, today) and increment/decrement counters are not in the modelled scope chain; generators do not use them",
+    "include / render are modelled for strict mode (in lax mode a partial's own top-level loop goes on after an error); the harness inlines the partial's nodes into the model AST",
+    "for loops are modelled over (1..n) ranges only; forloop drop, limit/offset, loop iteration limits are C06/C13's subject",
 ]
 MANIFEST = {
     "technique": "Lean 4 proof (induction over parameter and argument lists; scope-chain lemmas; functional induction over the render model) "
     "+ exhaustive differential correspondence over signatures x argument lists, random nested with/macro templates",
     "text": "Theorems bind_spec (positional in order, keywords by name override, defaults, else undefined; surplus -> args/kwargs) hold for all "
     "parameter dicts and all argument lists; with_binds / with_shadows / with_transparent / with_scoped hold for every scope chain and every block; "
-    "the models are tied to macro_tag.py / _with.py by the exhaustive signature enumeration and random nested templates.",
+    "with_scoped_on_every_exit: the scope stack is balanced over every node for every way of leaving it (normal, break, continue, error) -- the "
+    "try/finally of RenderContext.extend; include_shares_macros / render_isolates_state / render_hides_macros for macros across templates; "
+    "the models are tied to macro_tag.py / _with.py / for_tag.py / include_tag.py / render_tag.py by the exhaustive signature enumeration, random nested "
+    "templates with interrupts, and the withexit / partials grids.",
     "note": "Trusted: Lean kernel, the hand models, the harness's source<->AST mapping. Filters in argument expressions and non-primitive arguments are out of scope.",
 }
 
@@ -68,6 +79,20 @@ def node_src(n, order_rng=None):
         order = n[4] if len(n) > 4 else list(range(len(parts)))
         parts = [parts[i] for i in order]
         return "{% call " + n[1] + (" " + ", ".join(parts) if parts else "") + " %}"
+    if k == "include":
+        return "{% include '" + n[1] + "' %}"
+    if k == "render":
+        return "{% render '" + n[1] + "'" + "".join(", " + a + ": " + expr_src(e) for a, e in n[2]) + " %}"
+    if k == "for":
+        return "{% for " + n[1] + " in (1.." + str(n[2]) + ") %}" + nodes_src(n[3]) + "{% endfor %}"
+    if k == "ifeq":
+        return "{% if " + n[1] + " == " + str(n[2]) + " %}" + nodes_src(n[3]) + "{% endif %}"
+    if k == "break":
+        return "{% break %}"
+    if k == "continue":
+        return "{% continue %}"
+    if k == "fail":
+        return "{{ 1 | divided_by: 0 }}"
     if k == "dumpList":
         return "{% for x_ in " + n[1] + " %}<{{ x_ }}>{% endfor %}"
     if k == "dumpDict":
@@ -88,6 +113,8 @@ def strip_order(n):
         return ["with", n[1], [strip_order(x) for x in n[2]]]
     if k == "macro":
         return ["macro", n[1], n[2], [strip_order(x) for x in n[3]]]
+    if k in ("for", "ifeq"):
+        return [k, n[1], n[2], [strip_order(x) for x in n[3]]]
     return n
 
 
@@ -105,9 +132,21 @@ def get_env():
     return _ENV["e"]
 
 
-def render(src, data):
+def get_lax_env():
+    if "lax" not in _ENV:
+        from liquid import Environment, Mode
+        from liquid.extra import add_tags_and_filters
+
+        env = Environment(tolerance=Mode.LAX)
+        add_tags_and_filters(env)
+        _ENV["lax"] = env
+    return _ENV["lax"]
+
+
+def render(src, data, mode="strict"):
     try:
-        return {"ok": get_env().from_string(src).render(**data)}
+        env = get_lax_env() if mode == "lax" else get_env()
+        return {"ok": env.from_string(src).render(**data)}
     except BaseException as e:  # noqa: BLE001
         if isinstance(e, (KeyboardInterrupt, SystemExit)):
             raise
@@ -366,18 +405,35 @@ class RefScope:
 
 
 class DepthError(Exception):
-    pass
+    name = "ContextDepthError"
 
 
-def ref_render(sc: RefScope, nodes) -> str:
-    out = []
+class Brk(Exception):
+    name = "LiquidSyntaxError"  # what an interrupt outside a loop becomes
+
+
+class Cnt(Exception):
+    name = "LiquidSyntaxError"
+
+
+class Fail(Exception):
+    name = "FilterArgumentError"
+
+
+class Stray(Exception):
+    name = "LiquidSyntaxError"
+
+
+def ref_render(sc: RefScope, nodes, out: list) -> None:
+    """Writes to the shared buffer `out`; break / continue / errors are Python exceptions, and every scope that
+    was entered is left again on the way out (that is the property)."""
     for n in nodes:
         k = n[0]
         if k == "text":
             out.append(n[1])
         elif k == "out":
             v = sc.ev(n[1])
-            out.append("".join(v) if isinstance(v, list) else v)
+            out.append("".join(str(x) for x in v) if isinstance(v, list) else str(v))
         elif k == "assign":
             sc.locals[n[1]] = sc.ev(n[2])
         elif k == "with":
@@ -388,9 +444,67 @@ def ref_render(sc: RefScope, nodes) -> str:
                 raise DepthError
             sc.pushed.insert(0, ns)
             try:
-                out.append(ref_render(sc, n[2]))
+                ref_render(sc, n[2], out)
+            finally:
+                sc.pushed.pop(0)  # visible only inside the block, however the block is left
+        elif k == "for":
+            if n[2] == 0:
+                continue
+            if sc.base + len(sc.pushed) > sc.limit:
+                raise DepthError
+            ns = {n[1]: ""}
+            sc.pushed.insert(0, ns)
+            try:
+                for i in range(1, n[2] + 1):
+                    ns[n[1]] = i
+                    try:
+                        ref_render(sc, n[3], out)
+                    except Cnt:
+                        continue
+                    except Brk:
+                        break
             finally:
                 sc.pushed.pop(0)
+        elif k == "ifeq":
+            v = sc.get(n[1])
+            if isinstance(v, int) and v == n[2]:
+                ref_render(sc, n[3], out)
+        elif k == "break":
+            raise Brk
+        elif k == "continue":
+            raise Cnt
+        elif k == "fail":
+            raise Fail
+        elif k == "included":
+            # include: the partial runs in the SAME context (locals and macros shared both ways), under two
+            # namespaces (the tag's arguments, the partial's own) that are gone afterwards; interrupts pass through
+            if sc.base + len(sc.pushed) > sc.limit:
+                raise DepthError
+            if sc.base + len(sc.pushed) + 1 > sc.limit:
+                raise DepthError
+            sc.pushed.insert(0, {})
+            sc.pushed.insert(0, {})
+            try:
+                ref_render(sc, n[1], out)
+            finally:
+                sc.pushed.pop(0)
+                sc.pushed.pop(0)
+        elif k == "isolated":
+            # render: the partial runs in a COPY: no locals, no macros of the caller, arguments + caller's globals;
+            # nothing it assigns or defines comes back; an interrupt reaching its top level is a syntax error
+            ns = {}
+            for a, e in n[1]:
+                ns[a] = sc.ev(e)
+            if sc.depth > sc.limit:
+                raise DepthError
+            inner = RefScope({}, sc.limit)
+            inner.globals = [ns] + sc.globals
+            inner.depth = sc.depth + 1
+            inner.base = 5
+            try:
+                ref_render(inner, n[2], out)
+            except (Brk, Cnt):
+                raise Stray from None
         elif k == "macro":
             sc.macros[n[1]] = (n[2], n[3])
         elif k == "call":
@@ -407,7 +521,7 @@ def ref_render(sc: RefScope, nodes) -> str:
             inner.globals = [ns] + sc.globals
             inner.depth = sc.depth + 1
             inner.base = 4  # a fresh context; the macro block is rendered without a pushed namespace
-            out.append(ref_render(inner, body))
+            ref_render(inner, body, out)  # interrupts and errors of the body reach the caller
         elif k == "dumpList":
             v = sc.get(n[1])
             out.append("".join(f"<{x}>" for x in v) if isinstance(v, list) else (f"<{v}>" if v != "" else ""))
@@ -416,7 +530,20 @@ def ref_render(sc: RefScope, nodes) -> str:
             out.append("".join(f"<{a}={b}>" for a, b in v.items()) if isinstance(v, dict) else "")
         else:
             raise ValueError(n)
-    return "".join(out)
+
+
+def ref_template(globals_, nodes, mode="strict"):
+    """render_with_context: one top-level node at a time; strict raises, lax goes on with the next node."""
+    sc = RefScope(globals_)
+    out: list = []
+    for n in nodes:
+        try:
+            ref_render(sc, [n], out)
+        except (Brk, Cnt, Fail, Stray, DepthError) as e:
+            if mode == "strict":
+                return {"err": e.name}
+        assert not sc.pushed
+    return {"ok": "".join(out)}
 
 
 def shadow_events(nodes, bound, acc):
@@ -433,6 +560,8 @@ def shadow_events(nodes, bound, acc):
             bound["any"].add(n[1])
         elif n[0] == "macro":
             shadow_events(n[3], {"any": set(p for p, _ in n[2]), "with": set()}, acc)
+        elif n[0] in ("for", "ifeq"):
+            shadow_events(n[3], bound, acc)
 
 
 class WithStream(Stream):
@@ -452,10 +581,24 @@ class WithStream(Stream):
         def expr():
             return lit() if rng.range(0, 3) == 0 else ["var", rng.choice(NAMES + ["g"])]
 
-        def block(depth, in_macro=False):
+        def block(depth, in_macro=False, in_loop=False, lax=False):
             ns = []
             for _ in range(rng.range(1, 5)):
                 r = rng.range(0, 10)
+                q = rng.below(100)
+                if q < 10 and depth < 5:
+                    v = rng.choice(NAMES + ["i", "i"])
+                    ns.append(["for", v, rng.below(4), block(depth + 1, in_macro, True, lax)])
+                    continue
+                if q < 16 and depth < 6:
+                    ns.append(["ifeq", rng.choice(["i", "i", "a"]), rng.range(1, 3), block(depth + 1, in_macro, in_loop, lax)])
+                    continue
+                if q < 22 and (in_loop or in_macro or lax or rng.below(8) == 0):
+                    ns.append([rng.choice(["break", "continue"])])
+                    continue
+                if q < 24 and (lax or rng.below(4) == 0):
+                    ns.append(["fail"])
+                    continue
                 if r <= 2:
                     nm = rng.choice(NAMES + ["g"])
                     ns += [["text", nm + ":"], ["out", ["var", nm]], ["text", ";"]]
@@ -463,10 +606,10 @@ class WithStream(Stream):
                     ns.append(["assign", rng.choice(NAMES), expr()])
                 elif r <= 6 and depth < 5:
                     args = [[rng.choice(NAMES), expr()] for _ in range(rng.range(1, 4))]
-                    ns.append(["with", args, block(depth + 1, in_macro)])
+                    ns.append(["with", args, block(depth + 1, in_macro, in_loop, lax)])
                 elif r == 7 and not in_macro:
                     params = [[p, (lit() if rng.range(0, 2) else None)] for p in NAMES[: rng.range(0, 4)]]
-                    body = [["text", "("]] + block(depth + 1, True) + [["text", ")"]]
+                    body = [["text", "("]] + block(depth + 1, True, False, lax) + [["text", ")"]]
                     ns.append(["macro", rng.choice(["f", "h"]), params, body])
                 elif r == 8:
                     pos = [expr() for _ in range(rng.range(0, 3))]
@@ -481,7 +624,8 @@ class WithStream(Stream):
             g = {"g": "G"}
             if rng.range(0, 2):
                 g[rng.choice(NAMES)] = "G" + rng.choice(NAMES)
-            out.append({"globals": g, "nodes": block(0)})
+            lax = rng.below(3) == 0
+            out.append({"globals": g, "nodes": block(0, lax=lax), "mode": "lax" if lax else "strict"})
         # nesting around context_depth_limit (30): scope.size() = 4 + pushed
         # (deeper blocks hit the parser's block nesting limit first)
         for d in (24, 25, 26, 27, 28, 29):
@@ -494,22 +638,19 @@ class WithStream(Stream):
         return out
 
     def impl(self, case):
-        return render(nodes_src(case["nodes"]), case["globals"])
+        return render(nodes_src(case["nodes"]), case["globals"], case.get("mode", "strict"))
 
     def line(self, case):
-        return ["mrender", 30, [[k, v] for k, v in case["globals"].items()], [strip_order(n) for n in case["nodes"]]]
+        return ["mrender", 30, [[k, v] for k, v in case["globals"].items()], [strip_order(n) for n in case["nodes"]], case.get("mode", "strict")]
 
     def oracle(self, case, obs):
-        try:
-            want = {"ok": ref_render(RefScope(case["globals"]), case["nodes"])}
-        except DepthError:
-            want = {"err": "ContextDepthError"}
+        want = ref_template(case["globals"], case["nodes"], case.get("mode", "strict"))
         if obs == want:
             return None
         if "err" in obs:
             return (f"with|raises-{obs['err']}", f"rendering raised {obs['err']}, expected {want}")
         if "err" in want:
-            return ("with|depth-limit-not-enforced", f"rendered {obs['ok']!r}, expected ContextDepthError")
+            return (f"with|no-{want['err']}", f"rendered {obs['ok']!r}, expected {want['err']}")
         has_call = "call" in str(case["nodes"])
         return ("with|scoping+call" if has_call else "with|scoping", f"rendered {obs['ok']!r}, expected {want['ok']!r}")
 
@@ -529,17 +670,22 @@ class WithStream(Stream):
             t.append("call")
         if "'macro'" in s:
             t.append("macro")
+        for kind in ("for", "break", "continue", "fail"):
+            if f"'{kind}'" in s:
+                t.append(kind)
+        t.append(case.get("mode", "strict"))
         t.append("ok" if "ok" in obs else "err:" + obs["err"])
         return t
 
 
 class WithExitStream(Stream):
     """"visible only inside its block" must also hold when the block is left by break/continue to an enclosing loop
-    or by an error that lax/warn mode suppresses. Oracle only (the expected text is written out by a tiny reference).
+    or by an error that lax/warn mode suppresses. The expected text is written out by a tiny reference (direct oracle); since the deepening round
+    the model (Model/MacroRender with interrupts) renders the same AST too.
     Added after seeded change C27-2 (scope popped only on normal exit) was missed."""
 
     name = "withexit"
-    has_model = False
+    has_model = True
     exhaustive = True
 
     def cases(self, ctx):
@@ -552,16 +698,32 @@ class WithExitStream(Stream):
         return out
 
     @staticmethod
-    def source(case):
+    def nodes(case):
+        """The template as a model AST (the source text is generated from it)."""
         how = case["how"]
-        inner = {"break": "{% if i == W %}{% break %}{% endif %}", "continue": "{% if i == W %}{% continue %}{% endif %}",
-                 "error-lax": "{% if i == W %}{{ 1 | divided_by: 0 }}{% endif %}", "error-warn": "{% if i == W %}{{ 1 | divided_by: 0 }}{% endif %}",
-                 "normal": ""}[how].replace("W", str(case["when"]))
-        body = "[{{ p }}]" + inner + "."
+        leave = {"break": [["break"]], "continue": [["continue"]], "error-lax": [["fail"]], "error-warn": [["fail"]], "normal": None}[how]
+        body = [["text", "["], ["out", ["var", "p"]], ["text", "]"]]
+        if leave is not None:
+            body.append(["ifeq", "i", case["when"], leave])
+        body.append(["text", "."])
         for d in range(case["depth"]):
-            body = "{% with p: i, q" + str(d) + ": 7 %}" + body + "{% endwith %}"
-        pre = "{% assign p = 'o' %}" if case["outer"] else ""
-        return pre + "{% for i in (1..3) %}" + body + "<{{ p }}{{ q0 }}>{% endfor %}|{{ p }}{{ q0 }}|"
+            body = [["with", [["p", ["var", "i"]], ["q" + str(d), ["lit", "7"]]], body]]
+        loop = ["for", "i", 3, body + [["text", "<"], ["out", ["var", "p"]], ["out", ["var", "q0"]], ["text", ">"]]]
+        pre = [["assign", "p", ["lit", "o"]]] if case["outer"] else []
+        return pre + [loop, ["text", "|"], ["out", ["var", "p"]], ["out", ["var", "q0"]], ["text", "|"]]
+
+    @classmethod
+    def source(cls, case):
+        return nodes_src(cls.nodes(case))
+
+    def line(self, case):
+        mode = "lax" if case["how"].startswith("error") else "strict"
+        return ["mrender", 30, [], self.nodes(case), mode]
+
+    def canon_model(self, case, mobs):
+        if isinstance(mobs, dict) and "ok" in mobs:
+            return {"out": mobs["ok"]}
+        return mobs
 
     @staticmethod
     def expected(case):
@@ -609,5 +771,107 @@ class WithExitStream(Stream):
         return [case["how"], f"depth{case['depth']}"]
 
 
+def inline_partials(nodes, partials):
+    """The model has no template loader: `include` / `render` nodes carry the partial's nodes."""
+    out = []
+    for n in nodes:
+        k = n[0]
+        if k == "include":
+            out.append(["included", inline_partials(partials[n[1]], partials)])
+        elif k == "render":
+            out.append(["isolated", n[2], inline_partials(partials[n[1]], partials)])
+        elif k == "with":
+            out.append(["with", n[1], inline_partials(n[2], partials)])
+        elif k == "macro":
+            out.append(["macro", n[1], n[2], inline_partials(n[3], partials)])
+        elif k in ("for", "ifeq"):
+            out.append([k, n[1], n[2], inline_partials(n[3], partials)])
+        elif k == "call":
+            out.append(n[:4])
+        else:
+            out.append(n)
+    return out
+
+
+class PartialsStream(Stream):
+    """Macros (and assigned variables, interrupts) across templates: `include` renders the partial in the same
+    context, `render` in an isolated copy. Strict mode."""
+
+    name = "partials"
+    exhaustive = True
+
+    FRAGMENTS = {
+        "callf": [["text", "p:"], ["call", "f", [["var", "a"]], []]],
+        "defg": [["macro", "g", [["y", ["lit", "Dy"]]], [["text", "g("], ["out", ["var", "y"]], ["out", ["var", "a"]], ["text", ")"]]]],
+        "assign": [["assign", "a", ["lit", "P"]]],
+        "out": [["text", "a="], ["out", ["var", "a"]], ["text", ";"]],
+        "withcall": [["with", [["a", ["lit", "W2"]]], [["call", "f", [["var", "a"]], []], ["call", "g", [], []]]]],
+        "break": [["text", "b"], ["break"], ["text", "!"]],
+        "continue": [["text", "c"], ["continue"], ["text", "!"]],
+        "fail": [["text", "e"], ["fail"], ["text", "!"]],
+        "redef": [["macro", "f", [["x", None]], [["text", "F2("], ["out", ["var", "x"]], ["text", ")"]]]],
+    }
+
+    def cases(self, ctx):
+        out = []
+        names = list(self.FRAGMENTS)
+        for kind in ("include", "render", "render-args"):
+            for where in ("top", "with", "for"):
+                for f1 in names:
+                    for f2 in names:
+                        out.append({"kind": kind, "where": where, "frags": [f1, f2]})
+        return out
+
+    def build(self, case):
+        partial = []
+        for f in case["frags"]:
+            partial += self.FRAGMENTS[f]
+        if case["kind"] == "include":
+            use = ["include", "p"]
+        else:
+            use = ["render", "p", [["a", ["lit", "R"]]] if case["kind"] == "render-args" else []]
+        inner = [["text", "["], use, ["text", "]"]]
+        if case["where"] == "with":
+            inner = [["with", [["a", ["lit", "W"]]], inner]]
+        elif case["where"] == "for":
+            inner = [["for", "i", 2, [["out", ["var", "i"]]] + inner]]
+        nodes = (
+            [["macro", "f", [["x", None]], [["text", "f("], ["out", ["var", "x"]], ["text", ")"]]], ["assign", "a", ["lit", "A"]]]
+            + inner
+            + [["text", "|"], ["call", "g", [], []], ["call", "f", [["lit", "z"]], []], ["text", "a="], ["out", ["var", "a"]]]
+        )
+        return nodes, {"p": partial}
+
+    def impl(self, case):
+        from liquid import DictLoader, Environment
+
+        nodes, partials = self.build(case)
+        env = Environment(extra=True, loader=DictLoader({k: nodes_src(v) for k, v in partials.items()}))
+        try:
+            return {"ok": env.from_string(nodes_src(nodes)).render(g="G")}
+        except BaseException as e:  # noqa: BLE001
+            if isinstance(e, (KeyboardInterrupt, SystemExit)):
+                raise
+            return {"err": type(e).__name__}
+
+    def line(self, case):
+        nodes, partials = self.build(case)
+        return ["mrender", 30, [["g", "G"]], inline_partials(nodes, partials), "strict"]
+
+    def oracle(self, case, obs):
+        nodes, partials = self.build(case)
+        want = ref_template({"g": "G"}, inline_partials(nodes, partials), "strict")
+        if obs == want:
+            return None
+        kind = "include" if case["kind"] == "include" else "render"
+        return (f"partials|{kind}|{'+'.join(case['frags'])}"[:60], f"{nodes_src(nodes)!r} with p = {nodes_src(partials['p'])!r} rendered {obs}, expected {want}")
+
+    def nontrivial(self, case, obs):
+        return any(f in ("callf", "defg", "withcall", "redef", "break", "continue") for f in case["frags"])
+
+    def tags(self, case, obs):
+        return [case["kind"], case["where"], "ok" if "ok" in obs else "err:" + obs["err"]]
+
+
 def streams(ctx):
-    return [BindStream(), CallStream(), WithStream(), WithExitStream()]
+    return [BindStream(), CallStream(), WithStream(), WithExitStream(), PartialsStream()]
